@@ -13,9 +13,10 @@ def limbs_of(x):
 def limb_value(rng, p):
     """a 256-bit integer whose four limbs are drawn from boundary patterns (may be >= p)"""
     pl = limbs_of(p)
+    hl = limbs_of(p >> 1)
     v = 0
     for i in range(4):
-        k = rng.randrange(16)
+        k = rng.randrange(19)
         if k < len(LIMB_SPECIALS):
             c = LIMB_SPECIALS[k]
         elif k == 11:
@@ -24,6 +25,12 @@ def limb_value(rng, p):
             c = (pl[i] + 1) & M64
         elif k == 13:
             c = (pl[i] - 1) & M64
+        elif k == 14:
+            # complements of the modulus limbs and of the limbs of (p-1)/2: adding the modulus (or half of it, as modular
+            # halving does) to such a limb gives exactly 2^64-1 or 2^64
+            c = rng.choice([pl[i] ^ M64, (-pl[i]) & M64, hl[i] ^ M64, (-hl[i]) & M64, hl[i], (hl[i] + 1) & M64])
+        elif k == 15:
+            c = rng.choice([2 * (hl[i] ^ M64) + 1, 2 * (hl[i] ^ M64), 2 * ((-hl[i]) & M64) + 1, 2 * (pl[i] ^ M64) + 1]) & M64
         else:
             c = rng.getrandbits(64)
         v |= c << (64 * i)
@@ -329,7 +336,8 @@ def scalar(rng):
     """(k, class) with k in [0, r)"""
     c = rng.randrange(15)
     if c == 0:
-        fx = [0, 1, 2, 3, r - 1, r - 2, (r - 1) // 2, (r + 1) // 2, 4, 7, 8, 255, 256]
+        l = LAMBDA_R      # eigenvalues of the cube-root-of-unity endomorphism: [l]P = (beta*x, y) shares y with P
+        fx = [0, 1, 2, 3, r - 1, r - 2, (r - 1) // 2, (r + 1) // 2, 4, 7, 8, 255, 256, l, l * l % r, r - l, r - l * l % r, (l + 1) % r, (l - 1) % r]
         return fx[rng.randrange(len(fx))], 'fixed'
     if c == 1:
         return 1 << rng.randrange(256), 'pow2'       # may exceed r for bit 255
